@@ -4,10 +4,13 @@ import Proofs.FrameOps
 import Proofs.DescendSpec
 import Proofs.Traverse
 import Proofs.Windup
-/-! C02 — stored LRUs read back byte-identical, any stem length. Proved so far: the block codec
-    round-trips; a stem of *any* length written by `writeNew` (head + tail blocks) reads back
-    byte-identical; existing stems are untouched by later insertions. The search/traversal agreement
-    (`C02_locate`, `C02_agree`) is stated in DESIGN §7 and under construction in Proofs/Shape*. -/
+import Proofs.KnownRun
+/-! C02 — stored LRUs read back byte-identical, any stem length; locate / wind up / traverse agree in every
+    reachable state; and (history level, Proofs/Known*) an LRU can be located iff it is a non-empty
+    stem-prefix of an LRU named by an earlier write request or of a constructor-rule anchor
+    (`C02_known`, `C02_known_locate`, with `clear` as a reset: `C02_known_since`). "Named" is computed
+    from the request and its own write report (`State.named`): its argument LRUs plus the prefixes the
+    report announces for automatically created webentities. -/
 namespace Traph.Props
 open Traph State
 
@@ -81,5 +84,29 @@ theorem C02_inv_init : Shape ({} : State) .nil := shape_init
 
 /-- non-vacuity: lengths 74, 75, 148, 149 are instances, not cases -/
 example : ∀ n ∈ [1, 73, 74, 75, 147, 148, 149, 222, 223], blocksFor (List.replicate n 65) = (n + 73) / 74 := by decide
+
+/-- HISTORY LEVEL: on a fresh index, after any history of writes (no `clear`; `NoKeyErr`: no request aborted
+    by the library's KeyError mid-way), the stored LRUs are exactly the non-empty stem-prefixes of the
+    constructor-rule anchors and of the LRUs named by the requests; the accounting and shape invariants hold -/
+theorem C02_known (cfg : Config) (dflt : Rule) (rules : List (Bytes × Rule)) (ops : List Op)
+    (hop : ∀ op ∈ ops, ∀ d rs, op ≠ .clear d rs)
+    (hok : NoKeyErr (State.fresh cfg dflt rules []).1 ops) :
+    ∃ t, Good ((State.fresh cfg dflt rules []).1.run ops) t ∧
+      ∀ p, Known ((State.fresh cfg dflt rules []).1.run ops) t p ↔
+        Covered (anchors rules ++ (State.fresh cfg dflt rules []).1.namedRun ops) p :=
+  Traph.C02_known cfg dflt rules ops hop hok
+
+/-- the same through the library's own look-up (`lru_node`), no ghost tree in the statement -/
+theorem C02_known_locate (cfg : Config) (dflt : Rule) (rules : List (Bytes × Rule)) (ops : List Op)
+    (hop : ∀ op ∈ ops, ∀ d rs, op ≠ .clear d rs)
+    (hok : NoKeyErr (State.fresh cfg dflt rules []).1 ops) (p : LRU) (hp : p ≠ []) :
+    (∃ b, ((State.fresh cfg dflt rules []).1.run ops).lruNode p = some b) ↔
+      ∃ l ∈ anchors rules ++ (State.fresh cfg dflt rules []).1.namedRun ops, p <+: l :=
+  C02_known_lruNode cfg dflt rules ops hop hok p hp
+
+/-- shape, accounting and stem well-formedness hold in EVERY reachable state, aborted requests and `clear`
+    included (no hypothesis on the history) -/
+theorem C02_good_always (cfg : Config) (dflt : Rule) (rules : List (Bytes × Rule)) (ops : List Op) :
+    ∃ t, Good ((State.fresh cfg dflt rules []).1.run ops) t := good_run_any cfg dflt rules ops
 
 end Traph.Props
